@@ -249,8 +249,19 @@ func (p Proxy) ServeHTTP(w http.ResponseWriter, r *http.Request) (int, error) {
 		//   The call to proxy.ServeHTTP can theoretically panic.
 		//   To prevent host.Conns from getting out-of-sync we thus have to
 		//   make sure that it's _always_ correctly decremented afterwards.
+		//
+		// Several requests may have selected this host while it had a
+		// single free slot (Select only reads the counter), so max_conns
+		// is enforced here, where the request is counted.
+		if n := atomic.AddInt64(&host.Conns, 1); host.MaxConns > 0 && n > host.MaxConns {
+			atomic.AddInt64(&host.Conns, -1)
+			backendErr = errors.New("upstream host has reached max_conns")
+			if !keepRetrying(backendErr) {
+				break
+			}
+			continue
+		}
 		func() {
-			atomic.AddInt64(&host.Conns, 1)
 			defer atomic.AddInt64(&host.Conns, -1)
 			backendErr = proxy.ServeHTTP(w, outreq, downHeaderUpdateFn)
 		}()
